@@ -14,12 +14,25 @@
 //!                                                                                                   drift only
 //!   c19.simple         Type1/TrueType: FirstChar 0..255, /Widths of any length or absent            in domain
 //!   c19.simple.outside negative / huge FirstChar                                                    drift only
+//!   c19.fontw          `Font::widths` by subtype: Type1 / TrueType with /FirstChar /LastChar /Widths and the
+//!                      descriptor's /MissingWidth (in memory and through generated files), MMType1 / Type3 (nothing
+//!                      reported), Type0 over nothing / a CID font / a Type0 over a CID font                in domain
+//!   c19.diff           /Encoding /Differences arrays (groups `code name…`, any order, overlapping; in memory, in a
+//!                      font of a generated file, directly or by reference) → the glyph name of every boundary code
+//!                                                                                                   in domain
+//!   c19.diffwrite      `Encoding::to_primitive` of random maps: the array written vs the model's, and read back
+//!                                                                                                   in domain
+//!   c19.diff.outside   arrays with other primitives / a negative code                               drift only
 //!   c19.cmap.write     random maps u16 → non-empty strings (BMP + supplementary planes; runs, singletons, the
 //!                      ends of the code range): `write_cmap` text vs model text, and the text read back by
 //!                      `Font::to_unicode` vs the model reader                                       in domain
-//!   c19.cmap.parse     conformant CMap programs from a generator (header, codespace ranges, comments, any
-//!                      white space, upper/lower-case hex, 1- and 2-byte codes, bfchar, both bfrange forms)
+//!   c19.cmap.parse     conformant CMap programs from a generator: PostScript header / trailer, `usecmap`, codespace
+//!                      ranges, dictionaries, literal strings, counts, any number and order of blocks, comments ended by
+//!                      LF or CR anywhere, all six white-space characters (also inside hexadecimal strings), digits in
+//!                      either case, 1- and 2-byte codes, bfchar, both bfrange forms, text after `endcmap`
 //!                                                                                                   in domain
+//!   c19.cmap.conf      domain certificate: every program of c19.cmap.parse with the entries the generator meant is sent to
+//!                      the driver's sound checker for `CMapSpells` (must answer 1); seven non-spellings must get 0  in domain
 //!   c19.cmap.file      the same through a /ToUnicode stream of a font in a generated file (Flate or plain)
 //!                                                                                                   in domain
 //!   c19.cmap.outside   damaged programs (bytes replaced, truncated, unpaired surrogates, odd digits, long
@@ -28,6 +41,7 @@
 //!   c19.width          width of every queried code = the one its group assigns, else the default
 //!   c19.roundtrip      `to_unicode(write_cmap(m)) == m`
 //!   c19.cmapspec       every code of a conformant program maps to the text the specification defines
+//!   c19.encoding       glyph name of every code = that of the last group naming it; written maps read back equal
 //!   c19.regress        deterministic witnesses of the repaired defects D39 and D33 (font part); the two
 //!                      D33 loops run in a child process with a time and memory limit
 
@@ -750,6 +764,261 @@ fn simple_streams(driver: &Driver, or: &mut Oracle, seed: u64, n: u64, rep: &mut
     rep.streams.push(st_out);
 }
 
+
+// ---------------------------------------------------------------------------------------------------
+// Font::widths by subtype (simple fonts with /MissingWidth, MMType1 / Type3, Type0 nesting)
+
+fn descriptor_mw(mw: f32) -> FontDescriptor {
+    let mut d = descriptor();
+    d.missing_width = mw;
+    d
+}
+
+fn font_by_subtype(driver: &Driver, or: &mut Oracle, seed: u64, n: u64, only: Option<u64>, rep: &mut Report) {
+    let mut st = Stream::new("c19.fontw", true);
+    let mut reqs = vec![];
+    let mut imps = vec![];
+    for case in 0..n {
+        if only.map(|o| o != case).unwrap_or(false) { continue; }
+        let mut rng = Rng::derive(seed, "c19.fontw", case);
+        let kind = rng.below(8);
+        let codes: Vec<usize> = { let mut c = vec![0usize, 1, 31, 32, 33, 64, 65, 66, 127, 128, 254, 255, 256, 1000]; for _ in 0..3 { c.push(rng.below(300) as usize); } c.sort(); c.dedup(); c };
+        let tag = format!("@c19.fontw/{}/{}", seed, case);
+        match kind {
+            0..=4 => {
+                // Type1 / TrueType, in memory or through a file
+                let first: Option<i32> = if rng.chance(1, 10) { None } else { Some(*rng.pick(&[0, 1, 31, 32, 65, 128, 200, 255])) };
+                let len = match rng.below(4) { 0 => 0, 1 => 1, _ => rng.usize(230) };
+                let have = !rng.chance(1, 8);
+                let ws: Vec<f32> = (0..len).map(|i| if i % 3 == 0 { i as f32 + 0.5 } else { (1000 - i as i32) as f32 }).collect();
+                let mw: Option<f32> = match rng.below(4) { 0 => None, 1 => Some(0.0), 2 => Some(500.0), _ => Some(250.5) };
+                let tt = rng.chance(1, 2);
+                let via_file = rng.chance(1, 3);
+                st.count(&format!("kind={}{}", if tt { "TrueType" } else { "Type1" }, if via_file { ",file" } else { ",memory" }));
+                let imp = if via_file {
+                    let mut body = format!("<< /Type /Font /Subtype /{} /BaseFont /Verif", if tt { "TrueType" } else { "Type1" });
+                    if let Some(f) = first { body.push_str(&format!(" /FirstChar {} /LastChar {}", f, f as i64 + len as i64 - 1)); }
+                    if have { body.push_str(&format!(" /Widths [{}]", ws.iter().map(|w| if w.fract() == 0.0 { format!("{}", *w as i32) } else { format!("{}", w) }).collect::<Vec<_>>().join(" "))); }
+                    let mwc = mw;
+                    let (bytes, font_id) = font_file(&mut rng, move |objs, next| {
+                        let mut b = body.clone();
+                        if let Some(m) = mwc {
+                            let id = *next;
+                            *next += 1;
+                            objs.push((id, format!("<< /Type /FontDescriptor /FontName /Verif /Flags 4 /FontBBox [0 0 1000 1000] /ItalicAngle 0 /MissingWidth {} >>", if m.fract() == 0.0 { format!("{}", m as i32) } else { format!("{}", m) }).into_bytes()));
+                            b.push_str(&format!(" /FontDescriptor {} 0 R", id));
+                        }
+                        b.push_str(" >>");
+                        b
+                    }, false, None);
+                    let codes2 = codes.clone();
+                    no_panic(move || {
+                        let file = match FileOptions::uncached().load(bytes) { Ok(f) => f, Err(e) => return format!("load-failed: {}", e) };
+                        let res = file.resolver();
+                        let font = match res.get::<Font>(Ref::new(PlainRef { id: font_id, gen: 0 })) { Ok(f) => f, Err(e) => return format!("font-failed: {}", e) };
+                        show_widths(&font, &res, &codes2)
+                    }).unwrap_or_else(|_| "panic".into())
+                } else {
+                    let ws2 = ws.clone();
+                    let codes2 = codes.clone();
+                    no_panic(move || {
+                        let info = TFont { base_font: None, first_char: first, last_char: first.map(|f| f + len as i32 - 1), widths: if have { Some(ws2) } else { None }, font_descriptor: mw.map(descriptor_mw) };
+                        let f = Font { subtype: if tt { FontType::TrueType } else { FontType::Type1 }, name: Some(Name::from("Verif")), data: if tt { FontData::TrueType(info) } else { FontData::Type1(info) }, encoding: None, to_unicode: None, _other: Dictionary::new() };
+                        show_widths(&f, &NoResolve, &codes2)
+                    }).unwrap_or_else(|_| "panic".into())
+                };
+                let wreq = if !have { "none".to_string() } else if ws.is_empty() { "-".to_string() } else { ws.iter().map(|w| w.to_bits().to_string()).collect::<Vec<_>>().join(",") };
+                let rq = format!("c19.fontw S/{}/{}/{} {} {}", first.map(|f| f.to_string()).unwrap_or("none".into()), wreq, mw.map(|m| m.to_bits().to_string()).unwrap_or("none".into()), codes_req(&codes), tag);
+                // oracle (ISO 32000-1 9.6.2.1): entry at code - FirstChar inside the table, /MissingWidth (default 0) outside
+                let exp = match first {
+                    None => "none".to_string(),
+                    Some(f) => format!("ok {}", codes.iter().map(|&c| {
+                        let k = c as i64 - f as i64;
+                        if have && k >= 0 && (k as usize) < ws.len() { ws[k as usize].to_bits() } else { mw.unwrap_or(0.0).to_bits() }
+                    }.to_string()).collect::<Vec<_>>().join(",")),
+                };
+                or.case(&rq, len > 1, || json!({"request": rq, "observed": imp}));
+                or.count("stream=c19.fontw");
+                if imp != exp {
+                    or.fail(if imp == "panic" { "panic" } else { "simple-width-mismatch" }, &format!("simple font widths with /MissingWidth: expected {} got {}", trunc(&exp), trunc(&imp)),
+                        json!({"stream": "c19.fontw", "seed": seed, "case": case, "request": rq, "expected": exp, "observed": imp}));
+                }
+                reqs.push(rq);
+                imps.push(imp);
+            }
+            5 => {
+                // MMType1 / Type3: kept as raw dictionaries, no widths reported
+                let sub = if rng.chance(1, 2) { FontType::MMType1 } else { FontType::Type3 };
+                st.count("kind=MMType1/Type3");
+                let codes2 = codes.clone();
+                let imp = no_panic(move || {
+                    let mut d = Dictionary::new();
+                    d.insert("FirstChar", Primitive::Integer(32));
+                    d.insert("Widths", Primitive::Array(vec![Primitive::Integer(500)]));
+                    let f = Font { subtype: sub, name: Some(Name::from("Verif")), data: FontData::Other(d), encoding: None, to_unicode: None, _other: Dictionary::new() };
+                    show_widths(&f, &NoResolve, &codes2)
+                }).unwrap_or_else(|_| "panic".into());
+                reqs.push(format!("c19.fontw O {} {}", codes_req(&codes), tag));
+                imps.push(imp);
+            }
+            _ => {
+                // Type0 nesting: over nothing, over a CID font, over a Type0 over a CID font
+                let depth = rng.usize(3);
+                st.count(&format!("kind=Type0,depth={}", depth));
+                let gs = gen_disjoint(&mut rng, false);
+                let items: Vec<Item> = gs.iter().flat_map(|g| g.items()).collect();
+                let prims = items_prims(&items);
+                let codes2 = codes.clone();
+                let imp = no_panic(move || {
+                    let mut f: Option<Font> = if depth == 0 { None } else { Some(mem_cid_font(1000.0, prims, false)) };
+                    for _ in 0..depth.max(1) {
+                        f = Some(Font { subtype: FontType::Type0, name: Some(Name::from("Verif")), data: FontData::Type0(Type0Font { descendant_fonts: f.into_iter().map(MaybeRef::from).collect(), to_unicode: None }), encoding: None, to_unicode: None, _other: Dictionary::new() });
+                    }
+                    show_widths(&f.unwrap(), &NoResolve, &codes2)
+                }).unwrap_or_else(|_| "panic".into());
+                let inner = if depth == 0 { "T/".to_string() } else { format!("{}C/{}/{}", "T/".repeat(depth), 1000f32.to_bits(), items_req(&items, true)) };
+                reqs.push(format!("c19.fontw {} {} {}", inner, codes_req(&codes), tag));
+                imps.push(imp);
+            }
+        }
+    }
+    let resp = driver.ask(&reqs);
+    for ((rq, m), i) in reqs.iter().zip(resp.iter()).zip(imps.iter()) {
+        st.case(rq, m, i, true);
+    }
+    rep.streams.push(st);
+}
+
+// ---------------------------------------------------------------------------------------------------
+// /Encoding /Differences: which glyph name a code selects
+
+fn diff_prims(items: &[(Option<i32>, Option<u32>)]) -> Vec<Primitive> {
+    // (Some(code), None) = integer, (None, Some(id)) = name, (None, None) = another primitive
+    items.iter().map(|it| match it { (Some(c), _) => Primitive::Integer(*c), (None, Some(n)) => Primitive::Name(format!("g{}", n).as_str().into()), _ => Primitive::Boolean(true) }).collect()
+}
+
+fn diff_req(items: &[(Option<i32>, Option<u32>)]) -> String {
+    if items.is_empty() { return "-".into(); }
+    items.iter().map(|it| match it { (Some(c), _) => format!("i{}", c), (None, Some(n)) => format!("n{}", n), _ => "O".to_string() }).collect::<Vec<_>>().join(",")
+}
+
+fn show_diffs(e: &pdf::encoding::Encoding, codes: &[u32]) -> String {
+    format!("ok {}", codes.iter().map(|c| e.differences.get(c).map(|n| n.as_str().trim_start_matches('g').to_string()).unwrap_or("-".into())).collect::<Vec<_>>().join(","))
+}
+
+fn encoding_streams(driver: &Driver, or: &mut Oracle, seed: u64, n: u64, only: Option<u64>, rep: &mut Report) {
+    use pdf::encoding::{BaseEncoding, Encoding};
+    use pdf::object::{NoUpdate, Object, ObjectWrite};
+    let mut st = Stream::new("c19.diff", true);
+    let mut st_out = Stream::new("c19.diff.outside", false);
+    let mut st_w = Stream::new("c19.diffwrite", true);
+    let mut reqs: Vec<(String, String, u8)> = vec![];
+    for case in 0..n {
+        if only.map(|o| o != case).unwrap_or(false) { continue; }
+        let mut rng = Rng::derive(seed, "c19.diff", case);
+        let tag = format!("@c19.diff/{}/{}", seed, case);
+        // groups `code name name …`, any order, overlapping or not
+        let ng = rng.usize(6);
+        let mut items: Vec<(Option<i32>, Option<u32>)> = vec![];
+        let mut oracle: BTreeMap<u32, u32> = BTreeMap::new();
+        let mut codes: Vec<u32> = vec![0, 1, 255, 256];
+        let mut name = 100;
+        for _ in 0..ng {
+            let c: i32 = match rng.below(5) { 0 => 0, 1 => rng.below(40) as i32, 2 => 250 + rng.below(6) as i32, 3 => rng.below(256) as i32, _ => rng.below(70000) as i32 };
+            let len = rng.usize(6);
+            items.push((Some(c), None));
+            for i in 0..len {
+                name += 1;
+                items.push((None, Some(name)));
+                oracle.insert(c as u32 + i as u32, name);
+            }
+            for d in [-1i64, 0, 1] { for b in [c as i64, c as i64 + len as i64 - 1, c as i64 + len as i64] { if b + d >= 0 { codes.push((b + d) as u32); } } }
+        }
+        codes.sort();
+        codes.dedup();
+        let outside = case % 10 == 9;
+        if outside {
+            match rng.below(3) {
+                0 => items.push((None, None)),
+                1 => { items.insert(0, (Some(-1), None)); items.insert(1, (None, Some(7))); }
+                _ => { let i = rng.usize(items.len() + 1); items.insert(i, (None, None)); }
+            }
+        }
+        let via_file = !outside && rng.chance(1, 4);
+        let prims = diff_prims(&items);
+        let codes2 = codes.clone();
+        let imp = if via_file {
+            let arr = items.iter().map(|it| match it { (Some(c), _) => c.to_string(), (None, Some(n)) => format!("/g{}", n), _ => "true".into() }).collect::<Vec<_>>().join(" ");
+            let by_ref = rng.chance(1, 2);
+            let (bytes, font_id) = font_file(&mut rng, move |objs, next| {
+                let enc = format!("<< /Type /Encoding /BaseEncoding /WinAnsiEncoding /Differences [{}] >>", arr);
+                let e = if by_ref { let id = *next; *next += 1; objs.push((id, enc.into_bytes())); format!("{} 0 R", id) } else { enc };
+                format!("<< /Type /Font /Subtype /Type1 /BaseFont /Verif /FirstChar 0 /LastChar 0 /Widths [500] /Encoding {} >>", e)
+            }, false, None);
+            st.count("via=file");
+            no_panic(move || {
+                let file = match FileOptions::uncached().load(bytes) { Ok(f) => f, Err(e) => return format!("load-failed: {}", e) };
+                let res = file.resolver();
+                let font = match res.get::<Font>(Ref::new(PlainRef { id: font_id, gen: 0 })) { Ok(f) => f, Err(e) => return format!("font-failed: {}", e) };
+                match font.encoding() { Some(e) => show_diffs(e, &codes2), None => "no-encoding".into() }
+            }).unwrap_or_else(|_| "panic".into())
+        } else {
+            if !outside { st.count("via=memory"); }
+            no_panic(move || {
+                let mut d = Dictionary::new();
+                d.insert("BaseEncoding", Primitive::Name("WinAnsiEncoding".into()));
+                d.insert("Differences", Primitive::Array(prims));
+                match Encoding::from_primitive(Primitive::Dictionary(d), &NoResolve) { Ok(e) => show_diffs(&e, &codes2), Err(_) => "err".into() }
+            }).unwrap_or_else(|_| "panic".into())
+        };
+        let rq = format!("c19.diff {} {} {}", diff_req(&items), codes.iter().map(|c| c.to_string()).collect::<Vec<_>>().join(","), tag);
+        if !outside {
+            let exp = format!("ok {}", codes.iter().map(|c| oracle.get(c).map(|n| n.to_string()).unwrap_or("-".into())).collect::<Vec<_>>().join(","));
+            or.case(&rq, ng > 1, || json!({"request": rq, "observed": imp}));
+            or.count("stream=c19.diff");
+            if imp != exp {
+                or.fail(if imp == "panic" { "panic" } else { "differences-mismatch" }, &format!("/Differences: expected {} got {}", trunc(&exp), trunc(&imp)),
+                    json!({"stream": "c19.diff", "seed": seed, "case": case, "request": rq, "expected": exp, "observed": imp}));
+            }
+        }
+        reqs.push((rq, imp, if outside { 1 } else { 0 }));
+        // writer: a map code → name, written and read back
+        if !outside {
+            let m: BTreeMap<u32, u32> = oracle.clone();
+            let m2 = m.clone();
+            let wr = no_panic(move || {
+                let e = Encoding { base: BaseEncoding::WinAnsiEncoding, differences: m2.iter().map(|(k, v)| (*k, format!("g{}", v).as_str().into())).collect() };
+                let p = e.to_primitive(&mut NoUpdate).map_err(|e| format!("{}", e))?;
+                let items = match &p {
+                    Primitive::Dictionary(d) => match d.get("Differences") { Some(Primitive::Array(a)) => a.clone(), _ => return Err("no Differences".to_string()) },
+                    Primitive::Name(_) => vec![],
+                    _ => return Err("unexpected primitive".to_string()),
+                };
+                let txt = items.iter().map(|it| match it { Primitive::Integer(i) => format!("i{}", i), Primitive::Name(n) => format!("n{}", n.as_str().trim_start_matches('g')), _ => "O".into() }).collect::<Vec<_>>().join(",");
+                let back = Encoding::from_primitive(p, &NoResolve).map_err(|e| format!("{}", e))?;
+                let same = back.differences.len() == m2.len() && m2.iter().all(|(k, v)| back.differences.get(k).map(|n| n.as_str() == format!("g{}", v)).unwrap_or(false));
+                Ok::<_, String>((if txt.is_empty() { "ok -".to_string() } else { format!("ok {}", txt) }, same))
+            });
+            let wrq = format!("c19.diffwrite {} {}", if m.is_empty() { "-".to_string() } else { m.iter().map(|(k, v)| format!("{}={}", k, v)).collect::<Vec<_>>().join(";") }, tag);
+            let (wimp, same) = match wr { Ok(Ok((t, s))) => (t, s), Ok(Err(e)) => (format!("err {}", e), false), Err(_) => ("panic".to_string(), false) };
+            or.case(&wrq, m.len() > 1, || json!({"request": wrq, "observed": wimp}));
+            or.count("stream=c19.diffwrite");
+            if !same {
+                or.fail(if wimp == "panic" { "panic" } else { "differences-roundtrip" }, &format!("Encoding written and read back differs from the map ({})", trunc(&wimp)),
+                    json!({"stream": "c19.diff", "seed": seed, "case": case, "request": wrq, "observed": wimp}));
+            }
+            reqs.push((wrq, wimp, 2));
+        }
+    }
+    let resp = driver.ask(&reqs.iter().map(|r| r.0.clone()).collect::<Vec<_>>());
+    for ((rq, imp, k), m) in reqs.iter().zip(resp.iter()) {
+        match k { 0 => st.case(rq, m, imp, true), 1 => st_out.case(rq, m, imp, true), _ => st_w.case(rq, m, imp, true) }
+    }
+    rep.streams.push(st);
+    rep.streams.push(st_out);
+    rep.streams.push(st_w);
+}
+
 // ---------------------------------------------------------------------------------------------------
 // character maps
 
@@ -875,11 +1144,14 @@ fn cmap_write(driver: &Driver, or: &mut Oracle, seed: u64, n: u64, only: Option<
     rep.streams.push(st);
 }
 
+/// an entry of a bfchar / bfrange block as the specification sees it: codes and Unicode strings (scalar values)
 #[derive(Clone, Debug)]
 enum BfEntry {
-    Char { cid: u16, one_byte: bool, dst: Vec<u8> },
-    RangeStr { lo: u16, hi: u16, one_byte: bool, dst: Vec<u8> },
-    RangeArr { lo: u16, hi: u16, one_byte: bool, dsts: Vec<Vec<u8>> },
+    Char { cid: u16, s: Vec<u32> },
+    /// string form `<lo> <hi> <dst0>`: code lo+i maps to ss[i]; the UTF-16BE of ss[i] is that of ss[0] with the last byte + i
+    RangeStr { lo: u16, ss: Vec<Vec<u32>> },
+    /// array form `<lo> <hi> [<dst0> …]`
+    RangeArr { lo: u16, ss: Vec<Vec<u32>> },
 }
 
 fn utf16be(s: &[u32]) -> Vec<u8> {
@@ -887,26 +1159,20 @@ fn utf16be(s: &[u32]) -> Vec<u8> {
     st.encode_utf16().flat_map(|u| u.to_be_bytes()).collect()
 }
 
-/// what the specification says the entry maps (ISO 32000-1 9.10.3 / Adobe TN 5411): independent of the library
+fn utf16be_decode(b: &[u8]) -> Vec<u32> {
+    let u: Vec<u16> = b.chunks(2).map(|c| u16::from_be_bytes([c[0], c[1]])).collect();
+    char::decode_utf16(u).map(|r| r.unwrap() as u32).collect()
+}
+
+/// what the specification says the entries map (ISO 32000-1 9.10.3 / Adobe TN 5411): independent of the library
 fn spec_denote(entries: &[BfEntry]) -> UMap {
-    let dec = |b: &[u8]| -> Vec<u32> {
-        let u: Vec<u16> = b.chunks(2).map(|c| u16::from_be_bytes([c[0], c[1]])).collect();
-        char::decode_utf16(u).map(|r| r.unwrap() as u32).collect()
-    };
     let mut m = UMap::new();
     for e in entries {
         match e {
-            BfEntry::Char { cid, dst, .. } => { m.insert(*cid, dec(dst)); }
-            BfEntry::RangeStr { lo, hi, dst, .. } => {
-                for (i, c) in (*lo..=*hi).enumerate() {
-                    let mut d = dst.clone();
-                    *d.last_mut().unwrap() += i as u8;
-                    m.insert(c, dec(&d));
-                }
-            }
-            BfEntry::RangeArr { lo, hi, dsts, .. } => {
-                for (i, c) in (*lo..=*hi).enumerate() {
-                    m.insert(c, dec(&dsts[i]));
+            BfEntry::Char { cid, s } => { m.insert(*cid, s.clone()); }
+            BfEntry::RangeStr { lo, ss } | BfEntry::RangeArr { lo, ss } => {
+                for (i, s) in ss.iter().enumerate() {
+                    m.insert(*lo + i as u16, s.clone());
                 }
             }
         }
@@ -914,43 +1180,128 @@ fn spec_denote(entries: &[BfEntry]) -> UMap {
     m
 }
 
-fn ws(rng: &mut Rng) -> &'static str {
-    *rng.pick(&[" ", " ", " ", "\n", "\t", "  ", "\r\n", " \n ", "\r"])
+/// the entries in the notation of the driver's `c19.conf` request
+fn entries_req(entries: &[BfEntry]) -> String {
+    let us = |s: &Vec<u32>| if s.is_empty() { "e".to_string() } else { s.iter().map(|c| c.to_string()).collect::<Vec<_>>().join("+") };
+    if entries.is_empty() {
+        return "-".into();
+    }
+    entries
+        .iter()
+        .map(|e| match e {
+            BfEntry::Char { cid, s } => format!("c:{}:{}", cid, us(s)),
+            BfEntry::RangeStr { lo, ss } => format!("s:{}:{}", lo, ss.iter().map(us).collect::<Vec<_>>().join("|")),
+            BfEntry::RangeArr { lo, ss } => format!("a:{}:{}", lo, ss.iter().map(us).collect::<Vec<_>>().join("|")),
+        })
+        .collect::<Vec<_>>()
+        .join(";")
 }
 
-fn hexs(b: &[u8], rng: &mut Rng, lower: bool) -> String {
-    let mut s = String::from("<");
-    for (i, x) in b.iter().enumerate() {
-        if i > 0 && rng.chance(1, 40) { s.push(' '); }
-        s.push_str(&if lower { format!("{:02x}", x) } else { format!("{:02X}", x) });
+/// layout choices of a generated program
+#[derive(Clone, Copy)]
+struct Layout {
+    /// all six white-space characters, comments (ended by LF or CR), literal strings and dictionaries in the junk
+    rich: bool,
+    /// header / trailer / `endcmap`
+    framed: bool,
+}
+
+/// one separator run: white space (any of the six characters) and comments; empty only if `!must`
+fn sep(rng: &mut Rng, lay: Layout, must: bool) -> String {
+    let n = if must { 1 + rng.usize(3) } else { rng.usize(3) };
+    let mut s = String::new();
+    for _ in 0..n {
+        if lay.rich && rng.chance(1, 8) {
+            s.push('%');
+            s.push_str(*rng.pick(&["", " a comment", " <0000> <0041>", " beginbfchar <01> <0041> endbfchar", "%EndComments", " endcmap ] >"]));
+            s.push(if rng.chance(1, 2) { '\n' } else { '\r' });
+        } else if lay.rich {
+            s.push_str(*rng.pick(&[" ", " ", "\n", "\t", "\r", "\r\n", "\x0c", "\0", "  "]));
+        } else {
+            s.push_str(*rng.pick(&[" ", " ", "\n", "\t", "\r\n", "  "]));
+        }
     }
+    s
+}
+
+/// a hexadecimal string: digits in either case, white space between digits
+fn hexs(b: &[u8], rng: &mut Rng, lay: Layout) -> String {
+    let style = rng.below(3); // upper, lower, mixed
+    let mut s = String::from("<");
+    for x in b {
+        for d in [x >> 4, x & 15] {
+            if rng.chance(1, 40) {
+                s.push_str(if lay.rich { *rng.pick(&[" ", "\n", "\x0c", "\0", "\t", "\r"]) } else { " " });
+            }
+            let lower = match style { 0 => false, 1 => true, _ => rng.chance(1, 2) };
+            s.push(std::char::from_digit(d as u32, 16).map(|c| if lower { c } else { c.to_ascii_uppercase() }).unwrap());
+        }
+    }
+    if rng.chance(1, 40) { s.push(' '); }
     s.push('>');
     s
 }
 
-fn code_hex(c: u16, one_byte: bool, rng: &mut Rng, lower: bool) -> String {
-    if one_byte { hexs(&[c as u8], rng, lower) } else { hexs(&c.to_be_bytes(), rng, lower) }
+/// a code: two bytes, or one byte when it fits and the coin says so
+fn code_hex(c: u16, rng: &mut Rng, lay: Layout) -> String {
+    if c < 256 && rng.chance(1, 3) { hexs(&[c as u8], rng, lay) } else { hexs(&c.to_be_bytes(), rng, lay) }
 }
 
-/// a conformant CMap program and the entries it holds; cids of different entries do not overlap
-fn gen_cmap_program(rng: &mut Rng) -> (Vec<u8>, Vec<BfEntry>, String) {
-    let lower = rng.chance(1, 4);
-    let one_byte_cs = rng.chance(1, 6);
+/// tokens that the reader skips between blocks: PostScript header / trailer material
+fn junk_tokens(rng: &mut Rng, lay: Layout, n: usize) -> Vec<String> {
+    let words = ["def", "begin", "end", "dict", "findresource", "12", "usecmap", "CMapName", "currentdict", "defineresource", "pop", "begincmap",
+        "1", "begincodespacerange", "endcodespacerange", "3.5", "-1", "endbfchars", "beginbfcharx", "Endcmap", "R", "true"];
+    let names = ["/CIDInit", "/ProcSet", "/Registry", "/Ordering", "/Supplement", "/CMapName", "/Adobe-Identity-UCS", "/CMapType", "/CIDSystemInfo", "/", "/beginbfchar"];
+    let mut v = vec![];
+    for _ in 0..n {
+        match rng.below(if lay.rich { 8 } else { 4 }) {
+            0 | 1 => v.push(rng.pick(&words).to_string()),
+            2 => v.push(rng.pick(&names).to_string()),
+            3 => { v.push("<".into()); v.push(rng.pick(&["0000", "FFFF", "00", "ff", "8140"]).to_string()); v.push(">".into()); }
+            4 => { v.push("(".into()); v.push(rng.pick(&["Adobe", "UCS", "Identity", "CIDInit"]).to_string()); v.push(")".into()); }
+            5 => { v.push("<<".into()); v.push("/Registry".into()); v.push("(".into()); v.push("Adobe".into()); v.push(")".into()); v.push("/Supplement".into()); v.push("0".into()); v.push(">>".into()); }
+            6 => v.push(rng.pick(&["[", "]", "{", "}"]).to_string()),
+            _ => v.push(rng.pick(&words).to_string()),
+        }
+    }
+    v
+}
+
+fn is_regular_byte(b: u8) -> bool {
+    !matches!(b, 0 | 9 | 10 | 12 | 13 | 32 | b'(' | b')' | b'<' | b'>' | b'[' | b']' | b'{' | b'}' | b'/' | b'%')
+}
+
+/// append a token: a separator is needed between two regular characters and between two angle brackets
+fn push_tok(t: &mut String, tok: &str, rng: &mut Rng, lay: Layout) {
+    let last = t.as_bytes().last().copied();
+    let first = tok.as_bytes()[0];
+    let must = match last {
+        None => false,
+        Some(l) => (is_regular_byte(l) && is_regular_byte(first)) || (l == b'<' && first == b'<') || (l == b'>' && first == b'>') || l == b'/',
+    };
+    t.push_str(&sep(rng, lay, must));
+    t.push_str(tok);
+}
+
+/// A conformant CMap program and the entries it holds. Cids of different entries do not overlap (the specification
+/// does not say which of two definitions of a code wins).
+fn gen_cmap_program_with(rng: &mut Rng, lay: Layout) -> (Vec<u8>, Vec<BfEntry>, String) {
     let mut used = std::collections::BTreeSet::<u16>::new();
     let mut sections: Vec<Vec<BfEntry>> = vec![];
     let nsec = rng.usize(5);
     let mut desc = String::new();
+    let small = rng.chance(1, 5); // a one-byte code space
     for _ in 0..nsec {
         let is_char = rng.chance(1, 2);
         let cnt = 1 + rng.usize(6);
         let mut sec = vec![];
         for _ in 0..cnt {
-            let maxc: u32 = if one_byte_cs { 255 } else { 65535 };
-            let lo = match rng.below(5) { 0 => rng.below(20) as u32, 1 => maxc - rng.below(8) as u32, _ => rng.below(maxc as u64 + 1) as u32 };
+            let maxc: u32 = if small { 255 } else { 65535 };
+            let lo = match rng.below(5) { 0 => rng.below(20) as u32, 1 => maxc - rng.below(8) as u32, 2 => rng.below(256) as u32, _ => rng.below(maxc as u64 + 1) as u32 };
             if is_char {
                 if used.contains(&(lo as u16)) { continue; }
                 used.insert(lo as u16);
-                sec.push(BfEntry::Char { cid: lo as u16, one_byte: one_byte_cs, dst: utf16be(&rand_str(rng)) });
+                sec.push(BfEntry::Char { cid: lo as u16, s: rand_str(rng) });
                 desc.push('c');
             } else {
                 let len = 1 + rng.below(12) as u32;
@@ -958,17 +1309,17 @@ fn gen_cmap_program(rng: &mut Rng) -> (Vec<u8>, Vec<BfEntry>, String) {
                 if (lo..=hi).any(|c| used.contains(&(c as u16))) { continue; }
                 for c in lo..=hi { used.insert(c as u16); }
                 if rng.chance(1, 2) {
-                    // string form: the last byte must not overflow within the range
+                    // string form: the last byte must not overflow within the range; only the low byte of the last unit
+                    // moves, so the strings stay valid UTF-16 (a low surrogate stays in DC00..DFFF)
                     let mut d = utf16be(&rand_str(rng));
                     let l = d.len();
-                    let last = d[l - 1] as u32;
-                    if last + (hi - lo) > 255 { d[l - 1] = (255 - (hi - lo)) as u8; }
-                    // keep it valid UTF-16: a changed low byte of a low surrogate stays a low surrogate (DC00..DFFF)
-                    sec.push(BfEntry::RangeStr { lo: lo as u16, hi: hi as u16, one_byte: one_byte_cs, dst: d });
+                    if d[l - 1] as u32 + (hi - lo) > 255 { d[l - 1] = (255 - (hi - lo)) as u8; }
+                    let ss = (0..=(hi - lo)).map(|i| { let mut x = d.clone(); x[l - 1] += i as u8; utf16be_decode(&x) }).collect();
+                    sec.push(BfEntry::RangeStr { lo: lo as u16, ss });
                     desc.push('s');
                 } else {
-                    let dsts = (lo..=hi).map(|_| utf16be(&rand_str(rng))).collect();
-                    sec.push(BfEntry::RangeArr { lo: lo as u16, hi: hi as u16, one_byte: one_byte_cs, dsts });
+                    let ss = (lo..=hi).map(|_| rand_str(rng)).collect();
+                    sec.push(BfEntry::RangeArr { lo: lo as u16, ss });
                     desc.push('a');
                 }
             }
@@ -976,63 +1327,69 @@ fn gen_cmap_program(rng: &mut Rng) -> (Vec<u8>, Vec<BfEntry>, String) {
         if !sec.is_empty() { sections.push(sec); }
     }
     let mut t = String::new();
-    if rng.chance(1, 2) { t.push_str("%!PS-Adobe-3.0 Resource-CMap\n%%DocumentNeededResources: ProcSet (CIDInit)\n"); }
-    if rng.chance(3, 4) {
-        t.push_str("/CIDInit /ProcSet findresource begin\n12 dict begin\nbegincmap\n");
-        t.push_str("/CIDSystemInfo << /Registry (Adobe) /Ordering (UCS) /Supplement 0 >> def\n/CMapName /Adobe-Identity-UCS def\n/CMapType 2 def\n");
-        t.push_str(if one_byte_cs { "1 begincodespacerange\n<00> <FF>\nendcodespacerange\n" } else { "1 begincodespacerange\n<0000> <FFFF>\nendcodespacerange\n" });
+    if lay.framed && lay.rich && rng.chance(1, 2) {
+        t.push_str(if rng.chance(1, 2) { "%!PS-Adobe-3.0 Resource-CMap\n%%DocumentNeededResources: ProcSet (CIDInit)\r" } else { "%!PS-Adobe-3.0 Resource-CMap\r\n" });
+    }
+    if lay.framed {
+        for tok in ["/CIDInit", "/ProcSet", "findresource", "begin", "12", "dict", "begin", "begincmap"] { push_tok(&mut t, tok, rng, lay); }
+        if rng.chance(1, 3) { for tok in ["/Adobe-Japan1-UCS2", "usecmap"] { push_tok(&mut t, tok, rng, lay); } }
+        let nj = rng.usize(6);
+        let toks = junk_tokens(rng, lay, nj);
+        for tok in &toks { push_tok(&mut t, tok, rng, lay); }
+        for tok in ["1", "begincodespacerange", "<", if small { "00" } else { "0000" }, ">", "<", if small { "FF" } else { "FFFF" }, ">", "endcodespacerange"] { push_tok(&mut t, tok, rng, lay); }
     }
     let mut all = vec![];
     for sec in &sections {
         let is_char = matches!(sec[0], BfEntry::Char { .. });
-        t.push_str(&format!("{}{}{}", sec.len(), ws(rng), if is_char { "beginbfchar" } else { "beginbfrange" }));
-        t.push_str(ws(rng));
+        if rng.chance(1, 3) {
+            let nj = 1 + rng.usize(3);
+            let toks = junk_tokens(rng, lay, nj);
+            for tok in &toks { push_tok(&mut t, tok, rng, lay); }
+        }
+        if rng.chance(5, 6) { push_tok(&mut t, &sec.len().to_string(), rng, lay); }
+        push_tok(&mut t, if is_char { "beginbfchar" } else { "beginbfrange" }, rng, lay);
         for e in sec {
-            if rng.chance(1, 10) { t.push_str("% a comment <0000> <0041>\n"); }
             match e {
-                BfEntry::Char { cid, one_byte, dst } => {
-                    t.push_str(&code_hex(*cid, *one_byte, rng, lower));
-                    if rng.chance(3, 4) { t.push_str(ws(rng)); }
-                    t.push_str(&hexs(dst, rng, lower));
+                BfEntry::Char { cid, s } => {
+                    push_tok(&mut t, &code_hex(*cid, rng, lay), rng, lay);
+                    push_tok(&mut t, &hexs(&utf16be(s), rng, lay), rng, lay);
                 }
-                BfEntry::RangeStr { lo, hi, one_byte, dst } => {
-                    t.push_str(&code_hex(*lo, *one_byte, rng, lower));
-                    if rng.chance(3, 4) { t.push_str(ws(rng)); }
-                    t.push_str(&code_hex(*hi, *one_byte, rng, lower));
-                    if rng.chance(3, 4) { t.push_str(ws(rng)); }
-                    t.push_str(&hexs(dst, rng, lower));
+                BfEntry::RangeStr { lo, ss } => {
+                    push_tok(&mut t, &code_hex(*lo, rng, lay), rng, lay);
+                    push_tok(&mut t, &code_hex((*lo as u32 + ss.len() as u32 - 1) as u16, rng, lay), rng, lay);
+                    push_tok(&mut t, &hexs(&utf16be(&ss[0]), rng, lay), rng, lay);
                 }
-                BfEntry::RangeArr { lo, hi, one_byte, dsts } => {
-                    t.push_str(&code_hex(*lo, *one_byte, rng, lower));
-                    if rng.chance(3, 4) { t.push_str(ws(rng)); }
-                    t.push_str(&code_hex(*hi, *one_byte, rng, lower));
-                    if rng.chance(3, 4) { t.push_str(ws(rng)); }
-                    t.push('[');
-                    for (i, d) in dsts.iter().enumerate() {
-                        if i > 0 || rng.chance(1, 3) { t.push_str(ws(rng)); }
-                        t.push_str(&hexs(d, rng, lower));
-                    }
-                    if rng.chance(1, 3) { t.push_str(ws(rng)); }
-                    t.push(']');
+                BfEntry::RangeArr { lo, ss } => {
+                    push_tok(&mut t, &code_hex(*lo, rng, lay), rng, lay);
+                    push_tok(&mut t, &code_hex((*lo as u32 + ss.len() as u32 - 1) as u16, rng, lay), rng, lay);
+                    push_tok(&mut t, "[", rng, lay);
+                    for s in ss { push_tok(&mut t, &hexs(&utf16be(s), rng, lay), rng, lay); }
+                    push_tok(&mut t, "]", rng, lay);
                 }
             }
-            t.push_str(ws(rng));
             all.push(e.clone());
         }
-        t.push_str(if is_char { "endbfchar" } else { "endbfrange" });
-        t.push_str(ws(rng));
+        push_tok(&mut t, if is_char { "endbfchar" } else { "endbfrange" }, rng, lay);
     }
-    if rng.chance(3, 4) {
-        t.push_str("endcmap\nCMapName currentdict /CMap defineresource pop\nend\nend\n");
+    if lay.framed && rng.chance(3, 4) {
+        push_tok(&mut t, "endcmap", rng, lay);
         // what follows endcmap is never read
-        if rng.chance(1, 4) { t.push_str("1 beginbfchar <0001> <0041> endbfchar\n"); }
+        t.push_str(*rng.pick(&["\nCMapName currentdict /CMap defineresource pop\nend\nend\n", " 1 beginbfchar <0001> <0041> endbfchar\n", "", "\r", "%%EOF", "(", "<"]));
+    } else {
+        t.push_str(&sep(rng, lay, false));
     }
     (t.into_bytes(), all, desc)
+}
+
+fn gen_cmap_program(rng: &mut Rng) -> (Vec<u8>, Vec<BfEntry>, String) {
+    let lay = Layout { rich: rng.chance(3, 4), framed: rng.chance(3, 4) };
+    gen_cmap_program_with(rng, lay)
 }
 
 fn cmap_parse(driver: &Driver, or: &mut Oracle, seed: u64, n: u64, only: Option<u64>, rep: &mut Report) {
     let mut st = Stream::new("c19.cmap.parse", true);
     let mut reqs = vec![];
+    let mut creqs = vec![];
     let mut imps = vec![];
     for case in 0..n {
         if only.map(|o| o != case).unwrap_or(false) { continue; }
@@ -1052,12 +1409,40 @@ fn cmap_parse(driver: &Driver, or: &mut Oracle, seed: u64, n: u64, only: Option<
         }
         reqs.push(format!("c19.parse {} {}", hex(&text), tag));
         imps.push(imp);
+        // domain certificate: the text is a member of `CMapSpells entries` (sound checker run by the driver)
+        creqs.push((format!("c19.conf {} {} {}", entries_req(&entries), hex(&text), tag), "1"));
+        for (k, b) in [("comment", b'%'), ("form_feed", 0x0cu8), ("nul", 0u8), ("cr", b'\r'), ("literal_string", b'('), ("dict", b'{')] {
+            if text.contains(&b) { st.count(&format!("layout={}", k)); }
+        }
+    }
+    if only.is_none() {
+        // the certificate must be able to refuse: texts that are no spelling of the entries given
+        let e1 = vec![BfEntry::Char { cid: 3, s: vec![0x41] }];
+        let e2 = vec![BfEntry::RangeArr { lo: 16, ss: vec![vec![0x41], vec![0x42]] }];
+        for (es, text) in [
+            (&e1, &b"1 beginbfchar <0003> <0042> endbfchar"[..]),            // other destination
+            (&e1, b"1 beginbfchar <0003> <0041> % no end of line"),          // unterminated comment swallows the end
+            (&e1, b"1 beginbfchar <0003> (A) endbfchar"),                    // literal string
+            (&e1, b"1 beginbfchar <0003> <0041> endbfchar beginbfchar <0004> <0041> endbfchar"), // an entry too many
+            (&e2, b"1 beginbfrange <0010> <0011> [<0041>, <0042>] endbfrange"), // comma (D39)
+            (&e2, b"1 beginbfrange <0010> <0012> [<0041> <0042>] endbfrange"),  // wrong last code
+            (&e1, b"1 beginbfchar<0003><0041>endbfcharx"),                   // block not closed by the keyword
+        ] {
+            creqs.push((format!("c19.conf {} {} @c19.cmap.conf/0/neg", entries_req(es), hex(text)), "0"));
+        }
     }
     let resp = driver.ask(&reqs);
     for ((rq, m), i) in reqs.iter().zip(resp.iter()).zip(imps.iter()) {
         st.case(rq, m, i, rq.len() > 100);
     }
     rep.streams.push(st);
+    let mut sc = Stream::new("c19.cmap.conf", true);
+    let resp = driver.ask(&creqs.iter().map(|c| c.0.clone()).collect::<Vec<_>>());
+    for ((rq, want), m) in creqs.iter().zip(resp.iter()) {
+        sc.count(if m == "1" { "certified" } else { "refused" });
+        sc.case(rq, m, want, rq.len() > 100);
+    }
+    rep.streams.push(sc);
 }
 
 fn cmap_file(driver: &Driver, or: &mut Oracle, seed: u64, n: u64, only: Option<u64>, rep: &mut Report) {
@@ -1124,10 +1509,8 @@ fn cmap_outside(driver: &Driver, seed: u64, n: u64, rep: &mut Report) {
     let alphabet: &[u8] = b"<>[]0123456789ABCDEFabcdef \n\tbeginfchrax/,.{}";
     for case in 0..n {
         let mut rng = Rng::derive(seed, "c19.cmap.outside", case);
-        let (mut text, _, _) = gen_cmap_program(&mut rng);
-        // drop literal strings and comments of the header: the damage below could move them into a section
-        let s = String::from_utf8_lossy(&text).replace("(Adobe)", "/Adobe").replace("(UCS)", "/UCS").replace("(CIDInit)", "CIDInit");
-        text = s.into_bytes();
+        // plain layout (no literal strings, comments, `endcmap`): the damage below may move anything into a section
+        let (mut text, _, _) = gen_cmap_program_with(&mut rng, Layout { rich: false, framed: false });
         let kind = rng.below(8);
         match kind {
             0 => { let k = 1 + rng.usize(3); for _ in 0..k { if !text.is_empty() { let i = rng.usize(text.len()); text[i] = *rng.pick(alphabet); } } }
@@ -1250,6 +1633,19 @@ fn regressions(or: &mut Oracle) {
         or.fail("write-read-mismatch", &format!("D39 witness {{1:A,2:B,3:U+1F600,9:C}}: write_cmap then to_unicode gives {}", back), json!({"stream": "c19.regress", "witness": "D39", "observed": back}));
     }
     type0_without_descendants(or);
+    // simple font: /MissingWidth is the width of the codes outside the table (was a constant 0)
+    {
+        let got = no_panic(|| {
+            let info = TFont { base_font: None, first_char: Some(32), last_char: Some(33), widths: Some(vec![600.0, 700.0]), font_descriptor: Some(descriptor_mw(500.0)) };
+            let f = Font { subtype: FontType::Type1, name: Some(Name::from("Verif")), data: FontData::Type1(info), encoding: None, to_unicode: None, _other: Dictionary::new() };
+            match f.widths(&NoResolve) { Ok(Some(w)) => format!("{} {} {} {}", w.get(31), w.get(32), w.get(33), w.get(34)), _ => "no-widths".into() }
+        }).unwrap_or_else(|_| "panic".into());
+        or.case("missing-width", true, || json!({"witness": "missing-width", "observed": got}));
+        or.count("witness=missing-width");
+        if got != "500 600 700 500" {
+            or.fail("simple-width-mismatch", &format!("MissingWidth witness (FirstChar 32, Widths [600 700], MissingWidth 500), codes 31..34: expected 500 600 700 500 got {}", got), json!({"stream": "c19.regress", "witness": "missing-width", "observed": got}));
+        }
+    }
     // D33 (font part)
     for (name, items, want) in [
         ("D33-empty-run-at-0", "i0:0,[]", "ok"),
@@ -1320,6 +1716,8 @@ pub fn run(driver: &Driver, seed: u64, thorough: bool, replay: Option<&serde_jso
                 "c19.cmap.file" => cmap_file(driver, &mut or_sp, seed, case + 1, Some(case), &mut rep),
                 "c19.w.exhaustive" => w_exhaustive(driver, &mut or_w, seed, false, &mut rep),
                 "c19.simple" => simple_streams(driver, &mut or_w, seed, case + 1, &mut rep),
+                "c19.fontw" => font_by_subtype(driver, &mut or_w, seed, case + 1, Some(case), &mut rep),
+                "c19.diff" | "c19.diff.outside" | "c19.diffwrite" => encoding_streams(driver, &mut or_w, seed, case + 1, Some(case), &mut rep),
                 "c19.w.outside" => w_outside(driver, seed, case + 1, &mut rep),
                 "c19.cmap.outside" => cmap_outside(driver, seed, case + 1, &mut rep),
                 _ => regressions(&mut or_rg),
@@ -1337,6 +1735,9 @@ pub fn run(driver: &Driver, seed: u64, thorough: bool, replay: Option<&serde_jso
     w_file(driver, &mut or_w, seed, if thorough { 20_000 } else { 1000 }, None, &mut rep);
     w_outside(driver, seed, if thorough { 50_000 } else { 1500 }, &mut rep);
     simple_streams(driver, &mut or_w, seed, if thorough { 50_000 } else { 1500 }, &mut rep);
+    font_by_subtype(driver, &mut or_w, seed, if thorough { 30_000 } else { 1200 }, None, &mut rep);
+    let mut or_enc = Oracle::new("c19.encoding");
+    encoding_streams(driver, &mut or_enc, seed, if thorough { 100_000 } else { 3000 }, None, &mut rep);
     let mut or_rt = Oracle::new("c19.roundtrip");
     cmap_write(driver, &mut or_rt, seed, if thorough { 100_000 } else { 5000 }, None, &mut rep);
     let mut or_sp = Oracle::new("c19.cmapspec");
@@ -1356,6 +1757,6 @@ pub fn run(driver: &Driver, seed: u64, thorough: bool, replay: Option<&serde_jso
         }
     }
     rep.streams = merged;
-    rep.oracles.extend([or_rg, or_w, or_rt, or_sp]);
+    rep.oracles.extend([or_rg, or_w, or_rt, or_sp, or_enc]);
     rep
 }
